@@ -22,6 +22,8 @@ def sz(ctx, quick, thorough):
 
 
 def _finish(name, lines, descr, io, mo, diffs, dt, rule, nontrivial, dist=None, keep=30):
+    # keep the disagreements in the outcome itself (value / error class) first: those are the ones a functional property prescribes
+    diffs = sorted(diffs, key=lambda i: 0 if io[i].split(' ;;')[0] != mo[i].split(' ;;')[0] else 1)
     dis = [{'input': descr[i], 'line': lines[i][:2000], 'impl': io[i][:1500], 'model': mo[i][:1500]} for i in diffs[:keep]]
     unm = collections.Counter(m.split(' ')[1] if ' ' in m else m for m in mo if m.startswith('U '))
     distinct = len({lines[i] for i in nontrivial})
@@ -146,6 +148,11 @@ def slice_prog(ctx):
     ho = gens2.closure_cases(ctx['seed'], max(500, N // 10))
     lines += [c[0] for c in ho]
     srcs += ['[closures] ' + c[1] for c in ho]
+    # one lambda active several times at once (recursion, self-application, recursion under map / try_apply)
+    re_ = gens2.reentry_cases(ctx['seed'], max(300, N // 40))
+    re_ += gens2.literal_fresh_cases(ctx['seed'] + 3, max(200, N // 60))
+    lines += [c[0] for c in re_]
+    srcs += ['[re-entrant] ' + c[1] for c in re_]
     io, mo, d, dt = corr.compare(lines)
     nontriv = [i for i, a in enumerate(io) if a.startswith('ok') or a.startswith('err')]
     r = _finish('prog', lines, srcs, io, mo, d, dt,
@@ -200,6 +207,7 @@ def _eval_slice(name, cases, rule, nontriv_pred=None):
 def slice_ops(ctx):
     """G-ops: container operation sequences (C14, C03)"""
     cases = gens2.ops_cases(ctx['seed'], sz(ctx, 3000, 60000), sz(ctx, 2, 3), big_every=40)
+    cases += gens2.literal_fresh_cases(ctx['seed'], sz(ctx, 400, 5000))
     return _eval_slice('ops', cases, 'list/dict operation sequences: exhaustive to depth 2 (quick) / 3 (thorough) over 10 ops x start '
                        'lengths {0,2}, random sequences to length 25, start lengths incl. 9998..10001; non-trivial = evaluated (distinct)')
 
@@ -218,7 +226,8 @@ def slice_probe(ctx):
 
 
 def slice_scope(ctx):
-    cases = gens2.scope_cases(ctx['seed'], sz(ctx, 8000, 100000)) + gens2.closure_cases(ctx['seed'] + 7, sz(ctx, 3000, 40000))
+    cases = (gens2.scope_cases(ctx['seed'], sz(ctx, 8000, 100000)) + gens2.closure_cases(ctx['seed'] + 7, sz(ctx, 3000, 40000))
+             + gens2.reentry_cases(ctx['seed'] + 11, sz(ctx, 500, 6000)))
     return _eval_slice('scope', cases, 'one name bound at builtin / host / top-level / parameter level, lambda bodies that read, assign, '
                        'compound-assign or raise, called via apply / map / sorted / reduce / try_apply / recursion')
 
